@@ -987,6 +987,13 @@ int vorbis_synthesis_lapout(vorbis_dsp_state *v,float ***pcm){
      once as well as hold additional dsp state.  Opt for
      simplicity. */
 
+  /* the buffer must be swapped/moved only once per decoded block: a
+     second call (two cross-laps or lapped seeks with no packet decoded
+     in between) would shift the indices again, eventually past the end
+     of the buffer.  blockin sets nW to -1; we mark it here. */
+  if(v->nW==-1){
+  v->nW=0;
+
   /* centerW was advanced by blockin; it would be the center of the
      *next* block */
   if(v->centerW==n1){
@@ -1030,6 +1037,7 @@ int vorbis_synthesis_lapout(vorbis_dsp_state *v,float ***pcm){
       v->pcm_current+=n1-n0;
     }
   }
+  } /* nW==-1 */
 
   if(pcm){
     int i;
